@@ -267,25 +267,28 @@ func RunC05(id, tier string, seed int64) int {
 		_ = WriteEvidence(ev, start)
 		return code
 	}
-	crashCfg := func(n int, labelFirst, recovery, markerFirst, buildLast, inv string) string {
-		return fmt.Sprintf("SPECIFICATION Spec\nCONSTANTS\n  N = %d\n  LabelFirst = %s\n  ResidueRecovery = %s\n  MarkerFirst = %s\n  BuildLabelLast = %s\nINVARIANTS %s\nCHECK_DEADLOCK FALSE\n", n, labelFirst, recovery, markerFirst, buildLast, inv)
+	crashCfg := func(n int, v [5]string, inv string) string {
+		return fmt.Sprintf("SPECIFICATION Spec\nCONSTANTS\n  N = %d\n  LabelFirst = %s\n  ResidueRecovery = %s\n  MarkerFirst = %s\n  BuildLabelLast = %s\n  WipeWhenEmpty = %s\nINVARIANTS %s\nCHECK_DEADLOCK FALSE\n", n, v[0], v[1], v[2], v[3], v[4], inv)
 	}
+	allTrue := [5]string{"TRUE", "TRUE", "TRUE", "TRUE", "TRUE"}
 	states, transitions, mcDone, notes, err := RunMc([]McSpec{storeMc(2, 2, 2, 2, "InvContents DiskKeysUnique P5"),
-		{Module: "IavlCrash", Workers: 8, Timeout: 10 * time.Minute, CfgText: crashCfg(tierNum(tier, 4, 6), "TRUE", "TRUE", "TRUE", "TRUE", "CrashAtomic")}})
+		{Module: "IavlCrash", Workers: 8, Timeout: 10 * time.Minute, CfgText: crashCfg(tierNum(tier, 4, 6), allTrue, "CrashAtomic")}})
 	if err == nil {
 		// vacuity guard: each as-found ordering must be refuted by TLC, otherwise the design model checks nothing
-		for _, v := range [][4]string{{"FALSE", "TRUE", "TRUE", "TRUE"}, {"TRUE", "FALSE", "TRUE", "TRUE"}, {"TRUE", "TRUE", "FALSE", "TRUE"}, {"TRUE", "TRUE", "TRUE", "FALSE"}} {
-			r, e := tlcrun.Run(tlcrun.Opts{Module: "IavlCrash", CfgText: crashCfg(4, v[0], v[1], v[2], v[3], "CrashAtomic"), Workers: 4, Timeout: 5 * time.Minute})
+		for i := 0; i < 5; i++ {
+			v := allTrue
+			v[i] = "FALSE"
+			r, e := tlcrun.Run(tlcrun.Opts{Module: "IavlCrash", CfgText: crashCfg(4, v, "CrashAtomic"), Workers: 4, Timeout: 5 * time.Minute})
 			if e != nil {
 				err = e
 				break
 			}
 			if r.Violation == "" {
-				err = fmt.Errorf("IavlCrash.tla does not refute the write order (LabelFirst=%s ResidueRecovery=%s MarkerFirst=%s BuildLabelLast=%s): the design model is vacuous", v[0], v[1], v[2], v[3])
+				err = fmt.Errorf("IavlCrash.tla does not refute the write order (LabelFirst=%s ResidueRecovery=%s MarkerFirst=%s BuildLabelLast=%s WipeWhenEmpty=%s): the design model is vacuous", v[0], v[1], v[2], v[3], v[4])
 				break
 			}
 			transitions += r.Generated
-			notes = append(notes, fmt.Sprintf("IavlCrash with a wrong order (LabelFirst=%s ResidueRecovery=%s MarkerFirst=%s BuildLabelLast=%s): refuted by TLC after %d states", v[0], v[1], v[2], v[3], r.Generated))
+			notes = append(notes, fmt.Sprintf("IavlCrash with a wrong order (LabelFirst=%s ResidueRecovery=%s MarkerFirst=%s BuildLabelLast=%s WipeWhenEmpty=%s): refuted by TLC after %d states", v[0], v[1], v[2], v[3], v[4], r.Generated))
 		}
 	}
 	if err != nil {
